@@ -22,6 +22,7 @@ func init() {
 			"R3c with ForceFetch known true, extract.Endorsement returns success only after a successful network Get (a forced fetch never degrades to local evidence). " +
 			"R3b in the event-log lookup at most one locator is resolved per call (the first match in precedence order decides; a failed local locator does not fall through to the network one). R4 confinement: in extract/eventlog every os file access takes a path produced by securejoin.SecureJoin rooted at the reader's Root (error checked). " +
 			"R4b in the call closure of the event-log locator local evidence is read whole (no io.LimitReader / LimitedReader / CopyN, which truncate silently). " +
+			"R7 what package extract hands to the binary attestation parsers has no byte-normalising step (Trim*, To*, Replace*, Fields) in its history. " +
 			"R6 (= C18.R9, eventlog encoders) encoding an event does not modify it. " +
 			"R5b the events maker's result is published as file contents in the invocation that computed it and is never stored into a field or global (no unkeyed cache of events across firmwares). " +
 			"R5 emitted events: both SP800-155 events are built with one GUID value; the URI locator is GCETcbURL of a name derived from hex(golden digest). " +
@@ -40,6 +41,54 @@ func isGetterGet(call ssa.CallInstruction) bool {
 }
 
 func runC16(c *Ctx) {
+	defer func() {
+		// R7: a supplied quote reaches the binary parsers byte for byte. What package extract hands to the raw
+		// attestation parsers (go-sev-guest/abi, go-tdx-guest/abi functions and methods taking []byte, proto.Unmarshal)
+		// has no byte-normalising step in its history: bytes/strings Trim*, To*, Replace*, Fields, Map. (Decoding a
+		// text form — hex, base64 — is a different value, not a normalisation of the binary one.) A trailing 0x0a or
+		// 0x20 of a raw certificate table is data: the last byte of the endorsement's signature.
+		nParse := 0
+		for _, f := range c.P.RepoFunctions() {
+			if load.RelPkg(f) != "extract" || c.isTestFunc(f) {
+				continue
+			}
+			for _, call := range callsIn(f, func(call ssa.CallInstruction) bool {
+				cal := call.Common().StaticCallee()
+				if cal == nil || cal.Pkg == nil {
+					return false
+				}
+				switch cal.Pkg.Pkg.Path() {
+				case "github.com/google/go-sev-guest/abi", "github.com/google/go-tdx-guest/abi":
+					return true
+				}
+				return cal.String() == "google.golang.org/protobuf/proto.Unmarshal"
+			}) {
+				for _, a := range call.Common().Args {
+					if a.Type().String() != "[]byte" {
+						continue
+					}
+					nParse++
+					bad := ""
+					sl := flow.NewSlicer(c.P)
+					sl.LiftParams = 1
+					sl.Visit(a, func(v ssa.Value) bool {
+						if cc, ok := v.(*ssa.Call); ok {
+							if g := cc.Call.StaticCallee(); g != nil && g.Pkg != nil && (g.Pkg.Pkg.Path() == "bytes" || g.Pkg.Pkg.Path() == "strings") {
+								n := g.Name()
+								if strings.HasPrefix(n, "Trim") || strings.HasPrefix(n, "To") || strings.HasPrefix(n, "Replace") || n == "Fields" || n == "Map" {
+									bad = g.Pkg.Pkg.Name() + "." + n
+									return false
+								}
+							}
+						}
+						return bad == ""
+					}, nil)
+					c.S.Check(bad == "", "R7", load.FuncName(f)+":bytes handed to "+callName(call), c.pos(call.Pos()), "no byte-normalising step between the supplied quote and the binary parser", "the bytes handed to "+callName(call)+" went through "+bad+": a raw quote or certificate table whose last byte is white space is altered before it is parsed, so the certificate-table entry is not returned byte for byte (or the quote is not recognised)")
+				}
+			}
+		}
+		c.S.Floor("R7", "byte arguments of binary attestation parsers in package extract", 4, nParse)
+	}()
 	// R6 = C18.R9: the event encoders leave the event they encode untouched, so the manifest GUID written into the
 	// second event is the one written into the first.
 	c.borrow("R6/C18.", runC18, func(rule, construct string) bool { return rule == "R9" && strings.Contains(construct, "eventlog") })
